@@ -24,7 +24,7 @@ use std::{
     fmt,
     ops::{Deref, DerefMut},
 };
-use unicode_width::UnicodeWidthStr;
+use unicode_width::UnicodeWidthChar;
 
 mod cell;
 mod contacts;
@@ -537,7 +537,14 @@ impl CellBuffer {
                         acc
                     },
                 );
-                let escaped_unicode_width = escaped.width();
+                // the number of cells the escaped text occupies in the row: one per
+                // character, the display width for wide characters, whose NUL filler cells
+                // (see `StringBuffer`) are already accounted for by that width
+                let escaped_unicode_width: usize = escaped
+                    .chars()
+                    .filter(|ch| *ch != '\0')
+                    .map(|ch| ch.width().unwrap_or(1).max(1))
+                    .sum();
                 let cell = Cell::new(*start as i32, line as i32);
                 escaped_text.push((cell, escaped));
                 no_escaped_text += &input_chars[index..*start].iter().fold(
